@@ -261,6 +261,19 @@ def run(ctx):
                                               X("w:hyperlink", {"w:anchor": "between_cells"}, [X("w:r", {}, [X("w:t", {}, [XT("to the cell mark")])])])]))
             prefix = rng.choice(["", "", "doc-", 'p"<'])
             sm = rng.choice(MAPS)
+            if i % 5 == 3:
+                # a comment reference INSIDE a footnote (and one inside an endnote), comment mapping on: its link must resolve like any other
+                from mammoth.docx.xmlparser import element as X, text as XT
+                cid = str(100 + len(pkg.comments or []))
+                pkg.comments = list(pkg.comments or []) + [X("w:comment", {"w:id": cid, "w:author": "A", "w:initials": "AN"},
+                                                             [X("w:p", {}, [X("w:r", {}, [X("w:t", {}, [XT("about the note")])])])])]
+                for kind in ("footnote", "endnote"):
+                    part = list(getattr(pkg, kind + "s") or [])
+                    nid = str(max([int(n_.attributes.get("w:id", "0")) for n_ in part if n_.attributes.get("w:id", "0").lstrip("-").isdigit()] + [1]) + 1)
+                    part.append(X("w:" + kind, {"w:id": nid}, [X("w:p", {}, [X("w:r", {}, [X("w:t", {}, [XT("note with a comment")]), X("w:commentReference", {"w:id": cid})])])]))
+                    setattr(pkg, kind + "s", part)
+                    pkg.body.append(X("w:p", {}, [X("w:r", {}, [X("w:t", {}, [XT("see the " + kind)]), X("w:%sReference" % kind, {"w:id": nid})])]))
+                sm = "comment-reference => sup"
             opts = {"style_map": sm, "include_default_style_map": True, "include_embedded_style_map": True,
                     "ignore_empty_paragraphs": True, "id_prefix": prefix, "conv": "data_uri"}
             data, parts = B.build(pkg)
